@@ -9,6 +9,7 @@ P = "Minicbor.C19."
 REQUIRED = [P + n for n in """display_total display_ne_none display_bounded display_bounded_exists display_error_inline
     display_documented_seq display_documented display_examples""".split()]
 PACKAGES = ["hcore"]
+DEBUG_TWINS = True
 K, K0 = 16, 256
 TREES = {}
 RULE = ("display <hex>: (a) all byte strings of length <= 2 (quick; <= 3 thorough), all 256 initial bytes x 5 argument widths x extreme declared lengths, "
